@@ -39,6 +39,12 @@ class Loop:
 
 class Guard:
     def __init__(self, test, positive, rf, node=None):
+        # one spelling per condition: `if not c` / `if x is not None` / `if a != b` / `if len(x) == 0`
+        # are stored as the positive test with the polarity flipped
+        if rf is not None and hasattr(rf, 'tab'):
+            rf, flipped = rf.tab.canon_cond(rf)
+            if flipped:
+                positive = not positive
         self.early = False          # pushed because the other side left the block
         self.exit = set()           # ... and how it left ('raise', 'return', 'continue', 'break')
         self.test = test            # ast expr (or None for except)
